@@ -1,4 +1,5 @@
-CONSTANTS MaxHist = 4
+CONSTANTS Streams = {"s1", "s2", "s3"}
+ MaxHist = 4
  EmitAt = 4
 INIT Init
 NEXT Next
